@@ -132,8 +132,33 @@ def generic_loader(model, rep):
     construct = "components._Component.from_file"
     src = ast.unparse(fn)
     ok = True
+    PARSERS = ("toml.load", "toml.loads", "tomllib.load")
     cfgs = [x.targets[0].id for x in ast.walk(fn) if isinstance(x, ast.Assign) and isinstance(x.targets[0], ast.Name) and isinstance(x.value, ast.Call)
-            and ast.unparse(x.value.func) in ("toml.load", "toml.loads", "tomllib.load")]
+            and ast.unparse(x.value.func) in PARSERS]
+    if not cfgs:
+        # the parse may live in a module-level helper called with the file name: it must parse the file on every call
+        fparam = [a.arg for a in fn.args.args + fn.args.kwonlyargs if a.arg not in ("cls", "self", "name")]
+        for x in ast.walk(fn):
+            if isinstance(x, ast.Assign) and isinstance(x.targets[0], ast.Name) and isinstance(x.value, ast.Call) and isinstance(x.value.func, ast.Name) \
+                    and ("components", x.value.func.id) in model.funcs and any(isinstance(a, ast.Name) and a.id in fparam for a in x.value.args):
+                h = model.funcs[("components", x.value.func.id)]
+                parses = [c for c in ast.walk(h) if isinstance(c, ast.Call) and ast.unparse(c.func) in PARSERS]
+                if not parses:
+                    continue
+                cfgs.append(x.targets[0].id)
+                for d in h.decorator_list:
+                    dn = ast.unparse(d.func if isinstance(d, ast.Call) else d)
+                    if dn.split(".")[-1] in ("lru_cache", "cache", "cached", "memoize"):
+                        ok = False
+                        rep.violation("R1", construct, "%s:%d" % (rel, h.lineno), "the file is parsed by %s, which is memoised (@%s): a second from_file() of the same path returns the first parse even if the file has changed, and every component built from it shares one parameter dict" % (h.name, dn), "memoised file parse")
+                    else:
+                        raise AnalysisError("generic loader: helper %s carries the unknown decorator %s" % (h.name, dn))
+                glob_w = [g for g in ast.walk(h) if isinstance(g, (ast.Global, ast.Nonlocal))]
+                modvars = {t.id for s in model.tree["components"].body if isinstance(s, ast.Assign) for t in s.targets if isinstance(t, ast.Name)}
+                hits = [s for s in ast.walk(h) if isinstance(s, ast.Subscript) and isinstance(s.value, ast.Name) and s.value.id in modvars and isinstance(s.ctx, ast.Store)]
+                if glob_w or hits:
+                    ok = False
+                    rep.violation("R1", construct, "%s:%d" % (rel, h.lineno), "the file parser %s keeps parsed files in module state: a second from_file() of the same path does not see the file's current content" % h.name, "cached file parse")
     if len(cfgs) != 1:
         raise AnalysisError("generic loader: the parsed file is not bound to one name")
     CFG = cfgs[0]
